@@ -105,12 +105,14 @@ fn c05_witness_gillham_tc() {
     vassert!(alt_matches(want, got), "C05: Gillham (Q=0) altitude of an airborne-position squitter differs from the Mode C decoding");
 }
 
-/// row-level expectation: the carried value, or (no valid value) blank / previous
-fn row_alt_ok(want: Alt, before: Option<u32>, after: Option<u32>) -> bool {
+/// row-level expectation (C05: "every such frame for an aircraft already in the table has this
+/// effect"): the carried value; for an all-zero code or a value below 0 ft NO altitude, i.e. blank -
+/// also on a row that held one (C11's "or keeps its previous value" is C11's leniency, not C05's)
+fn row_alt_ok(want: Alt, _before: Option<u32>, after: Option<u32>) -> bool {
     match want {
         Alt::Metric => true,
         Alt::Ft(v) if v >= 0 => after == Some(v as u32),
-        _ => after.is_none() || after == before,
+        _ => after.is_none(),
     }
 }
 
